@@ -404,3 +404,24 @@ func hC07Repeated() {
 	}
 	verifAssert(sameBack, "C07: a repeated field converted to a URL and back is unchanged")
 }
+
+// hParamRepeatedWKT: a repeated field of a well-known scalar wrapper type (e.g. repeated
+// google.protobuf.StringValue) named by a query parameter: the parameter is either applied (one element
+// appended) or rejected as invalid_argument - it never crashes the request.
+func hParamRepeatedWKT() {
+	wkt := []string{"google.protobuf.StringValue", "google.protobuf.DoubleValue", "google.protobuf.Timestamp", "google.protobuf.Int32Value"}[verifChoose("type", 4)]
+	elem := newFakeMsgDesc(wkt, &fakeField{name: "value", kind: protoreflect.StringKind})
+	field := &fakeField{name: "items", kind: protoreflect.MessageKind, repeated: true, msg: elem}
+	fields := []protoreflect.FieldDescriptor{field}
+	msg := &fakeMsg{desc: newFakeMsgDesc("p.M", &fakeField{name: "name", kind: protoreflect.StringKind}, field)}
+	in := nondetBytes("param", 1)
+	verifReach("repeated-wrapper-parameter")
+	err := setParameter(msg, fields, string(in))
+	verifObsBool("accepted", err == nil)
+	verifReach("repeated-wrapper-decided")
+	if err != nil {
+		verifAssert(connect.CodeOf(err) == connect.CodeInvalidArgument, "C07: a parameter that does not fit a repeated wrapper field is rejected as invalid_argument")
+		return
+	}
+	verifAssert(len(msg.flist[1]) == 1, "C07: an accepted parameter for a repeated wrapper field appends one element")
+}
